@@ -319,6 +319,13 @@ class Gen:
             x = self.fresh("p")
             env2 = dict(env)
             env2[x] = aty
+            if r.random() < 0.3:
+                # immediately applied lambda with a rest parameter: 0..2 surplus operands
+                rest = self.fresh("rest")
+                env2[rest] = "ilist"
+                extra = [self.expr("int", d - 2, env) for _ in range(r.choice([0, 0, 1, 2]))]
+                self.stat("call-rest-lambda")
+                return ("app", ("lam", [x], rest, [self.expr(ty, d - 1, env2)]), [self.expr(aty, d - 1, env)] + extra)
             return ("app", ("lam", [x], None, [self.expr(ty, d - 1, env2)]), [self.expr(aty, d - 1, env)])
         if k < 0.33:
             fs = [f for f, (ats, rt, var) in self.funcs.items() if rt == ty]
